@@ -6,10 +6,10 @@ CONSTANTS
   FnModes = {"x:keyBare", "x:custominit", "reraise", "nested", "normal", "exc", "excBrokenStr", "sysexit", "raiseSysExit", "recursion", "blockedEval", "baseKbd", "baseCustom", "internalFault"}
   MaxFns = 1
   Depth = 3
-  InputOps = {"set_input"}
+  InputOps = {}
   Entries = {"run", "call", "evaluate"}
   TracerStyles = {"none"}
-  Threadeds = {FALSE}
+  Threadeds = {FALSE, TRUE}
   Flags = {}
 INVARIANT Restored
 INVARIANT Contained
